@@ -496,8 +496,10 @@ def decl_height(classes):
 
 
 def cost_bound(classes, value):
-    """the polynomial the oracle holds the implementation to: weight · size · (depth+1)²"""
-    return decl_weight(classes) * vsize(value) * (vdepth(value) + 1) ** 2
+    """the polynomial the oracle holds the implementation to where a data class sits under a union (region of the
+    known finding): weight · size · (depth+1)² / 2 — cubic in the nesting depth, what a parser that passed the stage's
+    preferences down into nested classes would need (≈ depth³/6 per leaf) with a wide margin"""
+    return decl_weight(classes) * vsize(value) * (vdepth(value) + 1) ** 2 // 2
 
 
 def data_under_union(t, under=False):
@@ -1219,7 +1221,7 @@ class C18(Check):
     props_modules = ["Utv.Props.C18"]
     driver = "C18"
     impl = "harness.c18:impl"
-    case_timeout = 15.0
+    case_timeout = 25.0
     rule = ("declarations: 1-3 (mutually) recursive Schema classes built from generated source, fields over "
             "leaf | None | data class | List | Tuple[..., ...] | Dict[str|int, ·] | Union, per-class max_depth in {None,1..5}, "
             "no_data_loss / no_explicit_cast / data_first_search; inputs: (a) the position x depth x max_depth matrix "
@@ -1434,7 +1436,7 @@ class C18(Check):
             formula = "3^height*weight*size*(depth+1)^2"
         elif decl_data_under_union(classes):
             # region of the known finding: a generous polynomial
-            bound, formula = cost_bound(classes, probe), "weight*size*(depth+1)^2"
+            bound, formula = cost_bound(classes, probe), "weight*size*(depth+1)^2/2"
         else:
             # no union restarts its stages below it: the Lean theorem C18_cost_poly_partial gives weight*size for the
             # unchanged code; the oracle allows twice that
